@@ -63,7 +63,11 @@ def compute_signature(
             # Hash on UFL signature and points
             signature = ufl.algorithms.signature.compute_expression_signature(expr, rn)
             object_signature += signature
-            object_signature += repr(points)
+            # repr() of an array rounds to 8 digits and elides the middle of long
+            # arrays, so hash the exact values instead
+            pts = np.ascontiguousarray(points)
+            object_signature += f"{pts.dtype.str}{pts.shape}"
+            object_signature += hashlib.sha1(pts.tobytes()).hexdigest()
 
             kind = "expression"
         else:
